@@ -227,6 +227,11 @@ func reverseName(r *rng, ip net.IP) string {
 		labels[r.intn(len(labels)-2)] = "256"
 	case 4: // two-digit hex / leading zeros
 		labels[r.intn(len(labels)-2)] = []string{"0a", "007", "ff", "+1", "1_0"}[r.intn(5)]
+	case 5, 6: // a zone cut: only the first 1..5 octets / nibbles of the address (odd nibble counts included)
+		keep := r.rng(1, 5)
+		if len(labels) > keep+2 {
+			labels = labels[len(labels)-2-keep:]
+		}
 	}
 	return randCase(r, strings.Join(labels, "."))
 }
@@ -322,6 +327,12 @@ func flowEngine(args []string) error {
 					ip = net.ParseIP(strings.Split(v6pool[r.intn(len(v6pool))], "%")[0])
 				}
 				name = reverseName(r, ip)
+				if r.coin(15) {
+					// the apex of a private (or neighbouring public) reverse zone, as resolvers ask for delegation checks
+					name = randCase(r, []string{"b.e.f.ip6.arpa", "8.e.f.ip6.arpa", "a.e.f.ip6.arpa", "9.e.f.ip6.arpa", "c.e.f.ip6.arpa", "7.e.f.ip6.arpa",
+						"e.f.ip6.arpa", "d.f.ip6.arpa", "0.d.f.ip6.arpa", "c.f.ip6.arpa", "10.in-addr.arpa", "16.172.in-addr.arpa", "31.172.in-addr.arpa",
+						"32.172.in-addr.arpa", "168.192.in-addr.arpa", "254.169.in-addr.arpa", "127.in-addr.arpa", "0.0.127.in-addr.arpa", "11.in-addr.arpa"}[r.intn(19)])
+				}
 			default:
 				name = string(randLabel(r, 6)) + ".example"
 			}
